@@ -452,6 +452,8 @@ class Exec:
             return all(self.only_noise(c) for c in kids(n))
         if k == "CallExpr":
             return self.callee(n) in IGNORED_CALLS
+        if k == "ReturnStmt":
+            return not self.ctx        # argument-check guard before any loop
         return False
 
     def if_stmt(self, n):
@@ -2013,6 +2015,43 @@ def buffer_root(e, alias):
     return ast.unparse(e), view
 
 
+def guard_form(test, env):
+    """canonical text of a branch condition: negations pushed inwards, `X > 0`, `X != 0`, `0 < X`
+    and plain `X` are one form (counts), likewise `X == 0` / `not X`; `a and b` is order-free."""
+    t = py_inline(test, env)
+
+    def norm(e, neg):
+        if isinstance(e, ast.UnaryOp) and isinstance(e.op, ast.Not):
+            return norm(e.operand, not neg)
+        if isinstance(e, ast.BoolOp):
+            parts = sorted(norm(v, neg) for v in e.values)
+            is_and = isinstance(e.op, ast.And) != neg
+            return "(" + (" and " if is_and else " or ").join(parts) + ")"
+        if isinstance(e, ast.Compare) and len(e.ops) == 1:
+            a, op, b = e.left, e.ops[0], e.comparators[0]
+            if isinstance(a, ast.Constant) and not isinstance(b, ast.Constant):
+                flip = {ast.Lt: ast.Gt, ast.Gt: ast.Lt, ast.LtE: ast.GtE, ast.GtE: ast.LtE}
+                a, b = b, a
+                op = flip.get(type(op), type(op))()
+            zero = isinstance(b, ast.Constant) and not isinstance(b.value, bool) and b.value == 0
+            txt = canon_py(a, {}, arith=True)
+            if zero and isinstance(op, (ast.Gt, ast.NotEq)):
+                return ("not " if neg else "") + txt
+            if zero and isinstance(op, (ast.Eq, ast.LtE)):
+                return ("" if neg else "not ") + txt
+            if isinstance(op, (ast.Is, ast.IsNot)) and isinstance(b, ast.Constant) and b.value is None:
+                pos = isinstance(op, ast.Is) != neg
+                return "%s is %sNone" % (txt, "" if pos else "not ")
+            inv = {ast.Eq: "!=", ast.NotEq: "==", ast.Lt: ">=", ast.GtE: "<", ast.Gt: "<=", ast.LtE: ">"}
+            same = {ast.Eq: "==", ast.NotEq: "!=", ast.Lt: "<", ast.GtE: ">=", ast.Gt: ">", ast.LtE: "<="}
+            tab = inv if neg else same
+            if type(op) in tab:
+                return "%s %s %s" % (txt, tab[type(op)], canon_py(b, {}, arith=True))
+        txt = ast.unparse(e)
+        return ("not (%s)" % txt) if neg else txt
+    return norm(t, False)
+
+
 class Event:
     def __init__(self, prim, flag, statics, bufs, guards, node, order):
         self.prim, self.flag, self.statics, self.bufs = prim, flag, statics, bufs
@@ -2044,8 +2083,39 @@ class PySpec:
         self.inline = tuple(inline)
 
 
+def _norm_lib(e):
+    """getattr(libcider, "name") -> libcider.name"""
+    if isinstance(e, ast.Call) and isinstance(e.func, ast.Name) and e.func.id == "getattr" and len(e.args) == 2 \
+            and isinstance(e.args[1], ast.Constant) and isinstance(e.args[1].value, str):
+        return ast.Attribute(value=e.args[0], attr=e.args[1].value, ctx=ast.Load())
+    return e
+
+
+def py_resolve(mod, cls, name):
+    """method `name` of class `cls` (searching same-module base classes), else a module-level function"""
+    seen = set()
+    todo = [cls] if cls else []
+    while todo:
+        c = todo.pop(0)
+        if c in seen:
+            continue
+        seen.add(c)
+        for st in mod.body:
+            if isinstance(st, ast.ClassDef) and st.name == c:
+                for m in st.body:
+                    if isinstance(m, ast.FunctionDef) and m.name == name:
+                        return m
+                for b in st.bases:
+                    if isinstance(b, ast.Name):
+                        todo.append(b.id)
+    for st in mod.body:
+        if isinstance(st, ast.FunctionDef) and st.name == name:
+            return st
+    return None
+
+
 def _callee_name(call):
-    f = call.func
+    f = _norm_lib(call.func)
     if isinstance(f, ast.Attribute):
         return f.attr
     if isinstance(f, ast.Name):
@@ -2074,8 +2144,18 @@ class Tracer:
         return None
 
     def block(self, stmts):
+        pushed = 0
         for st in stmts:
             self.stmt(st)
+            # early return / raise: the rest of the block runs under the negated test
+            if isinstance(st, ast.If) and not st.orelse and st.body and isinstance(st.body[-1], (ast.Return, ast.Raise)) \
+                    and self.fold(st.test) is None and not any(
+                        isinstance(x, ast.Call) and self.is_prim(x) for b in st.body for x in ast.walk(b)):
+                if isinstance(st.body[-1], ast.Return):
+                    self.guards.append(("if", guard_form(ast.UnaryOp(op=ast.Not(), operand=st.test), self.env)))
+                    pushed += 1
+        for _ in range(pushed):
+            self.guards.pop()
 
     def stmt(self, st):
         if isinstance(st, ast.If):
@@ -2084,12 +2164,11 @@ class Tracer:
                 return self.block(st.body)
             if v is False:
                 return self.block(st.orelse)
-            g = canon_py(st.test, self.env, arith=False)
-            self.guards.append(("if", g))
+            self.guards.append(("if", guard_form(st.test, self.env)))
             self.block(st.body)
             self.guards.pop()
             if st.orelse:
-                self.guards.append(("if", "not (%s)" % g))
+                self.guards.append(("if", guard_form(ast.UnaryOp(op=ast.Not(), operand=st.test), self.env)))
                 self.block(st.orelse)
                 self.guards.pop()
             return
@@ -2139,7 +2218,18 @@ class Tracer:
 
     def define(self, name, val):
         self.assigned[name] = self.assigned.get(name, 0) + 1
-        # libcider function selection
+        # libcider function selection (attribute, getattr(), or a ternary on a folded flag)
+        val = _norm_lib(val)
+        if isinstance(val, ast.IfExp):
+            v = self.fold(val.test)
+            if v is not None:
+                val = _norm_lib(val.body if v else val.orelse)
+        if isinstance(val, ast.Subscript) and isinstance(val.value, ast.Dict):
+            k = py_inline(val.slice, self.env)
+            if isinstance(k, ast.Constant):
+                for kk, vv in zip(val.value.keys, val.value.values):
+                    if isinstance(kk, ast.Constant) and kk.value == k.value:
+                        val = _norm_lib(vv)
         if isinstance(val, ast.Attribute) and isinstance(val.value, ast.Name) and val.value.id == "libcider":
             self.fnvar[name] = val.attr
             return
@@ -2165,11 +2255,11 @@ class Tracer:
     def prim_name(self, call):
         nm = _callee_name(call)
         clib = False
+        f = _norm_lib(call.func)
         if isinstance(call.func, ast.Name) and call.func.id in self.fnvar:
             nm = self.fnvar[call.func.id]
             clib = True
-        elif isinstance(call.func, ast.Attribute) and isinstance(call.func.value, ast.Name) \
-                and call.func.value.id == "libcider":
+        elif isinstance(f, ast.Attribute) and isinstance(f.value, ast.Name) and f.value.id == "libcider":
             clib = True
         if clib and ("libcider:%s" % nm) in self.spec.prims:
             return "libcider:%s" % nm
@@ -2177,7 +2267,35 @@ class Tracer:
 
     def is_prim(self, call):
         nm = self.prim_name(call)
-        return nm in self.spec.prims or nm in self.spec.inline
+        return nm in self.spec.prims or nm in self.spec.inline or self.helper_def(call) is not None
+
+    def helper_def(self, call):
+        """`self._h(...)`, `cls._h(...)` or a same-module function that (itself) calls a primitive:
+        followed one level so that extracting a helper does not change the trace."""
+        if getattr(self, "depth", 0) >= 2 or self.find_method is None:
+            return None
+        f = call.func
+        if isinstance(f, ast.Attribute) and isinstance(f.value, ast.Name) and f.value.id in ("self", "cls"):
+            nm = f.attr
+        elif isinstance(f, ast.Name) and f.id not in self.fnvar:
+            nm = f.id
+        else:
+            return None
+        if nm in self.spec.prims or nm in self.spec.inline:
+            return None
+        cache = self.__dict__.setdefault("_helper_cache", {})
+        if nm not in cache:
+            fn = self.find_method(nm)
+            ok = False
+            if fn is not None and fn is not self.func:
+                for x in ast.walk(fn):
+                    if isinstance(x, ast.Call):
+                        n2 = _callee_name(x)
+                        if n2 in self.spec.prims or ("libcider:%s" % n2) in self.spec.prims or n2 in self.spec.inline:
+                            ok = True
+                            break
+            cache[nm] = fn if ok else None
+        return cache[nm]
 
     def index_event(self, gather, bname, idx, aname, st):
         bufs = {"B": buffer_root(bname, self.alias), "A": buffer_root(aname, self.alias)}
@@ -2188,6 +2306,10 @@ class Tracer:
         nm = self.prim_name(call)
         if nm in self.spec.inline:
             return self.splice(nm, call, st, target)
+        if nm not in self.spec.prims:
+            hd = self.helper_def(call)
+            if hd is not None:
+                return self.splice(hd.name, call, st, target, fn=hd)
         p = self.spec.prims[nm]
         params = p.get("params")
         bound = {}
@@ -2247,34 +2369,62 @@ class Tracer:
         ev.roles = roles
         self.events.append(ev)
 
-    def splice(self, nm, call, st, target):
-        fn = self.find_method(nm)
+    def splice(self, nm, call, st, target, fn=None):
+        fn = fn or self.find_method(nm)
         if fn is None:
             raise Irreducible("helper %s to inline not found" % nm)
         sub = Tracer.__new__(Tracer)
         sub.spec, sub.mod, sub.func = self.spec, self.mod, fn
         sub.env, sub.alias, sub.fnvar, sub.events = dict(), dict(), dict(), []
         sub.guards, sub.find_method, sub.assigned = list(self.guards), self.find_method, {}
+        sub.depth = getattr(self, "depth", 0) + 1
         names = [a.arg for a in fn.args.args]
-        if names and names[0] in ("self", "cls"):
+        deco = {ast.unparse(d) for d in fn.decorator_list}
+        if names and names[0] in ("self", "cls") and "staticmethod" not in deco:
             names = names[1:]
+        # the helper's own locals get roots of their own
+        for loc in sub.func_locals():
+            sub.alias[loc] = ("%s::%s" % (nm, loc), "")
+        bound = {}
         for i, a in enumerate(call.args):
             if i < len(names):
-                r, view = buffer_root(a, self.alias)
-                sub.alias[names[i]] = (r, view)
+                bound[names[i]] = a
         for kw in call.keywords:
             if kw.arg:
-                r, view = buffer_root(kw.value, self.alias)
-                sub.alias[kw.arg] = (r, view)
+                bound[kw.arg] = kw.value
+        # parameter defaults that are literals
+        pos = fn.args.args
+        for a, d in zip(pos[len(pos) - len(fn.args.defaults):], fn.args.defaults):
+            if a.arg not in bound and isinstance(d, ast.Constant):
+                sub.env[a.arg] = d
+        for a, d in zip(fn.args.kwonlyargs, fn.args.kw_defaults):
+            if a.arg not in bound and isinstance(d, ast.Constant):
+                sub.env[a.arg] = d
+        for pname, a in bound.items():
+            sub.alias[pname] = buffer_root(a, self.alias)
+            sub.env[pname] = py_inline(a, self.env)
         sub.block(fn.body)
+        site = getattr(self, "site", None) or st
         for e in sub.events:
             e.order = len(self.events)
+            if not hasattr(e, "site"):
+                e.site = site
+            e.frames = getattr(e, "frames", []) + [(fn, sub)]
             # the helper's returned value is the caller's assignment target
             if target is not None:
                 for k, (r, v) in list(e.bufs.items()):
                     if r == "<return>":
                         e.bufs[k] = buffer_root(target, self.alias)
             self.events.append(e)
+        # `return buf` / `return a, b`: the caller's target names alias the helper's buffers
+        if target is not None and fn.body and isinstance(fn.body[-1], ast.Return) and fn.body[-1].value is not None:
+            rv = fn.body[-1].value
+            rl = rv.elts if isinstance(rv, ast.Tuple) else [rv]
+            tl = target.elts if isinstance(target, ast.Tuple) else [target]
+            if len(rl) == len(tl):
+                for t, r in zip(tl, rl):
+                    if isinstance(t, ast.Name) and isinstance(r, ast.Name) and t.id != "<return>":
+                        self.alias[t.id] = buffer_root(r, sub.alias)
 
 
 def _dir_roles(e):
@@ -2470,6 +2620,36 @@ def is_zeroing(st, names, fold=None):
             return any(is_zeroing(x, names, fold) for x in st.orelse)
         return bool(st.orelse) and any(is_zeroing(x, names, fold) for x in st.body) \
             and any(is_zeroing(x, names, fold) for x in st.orelse)
+    # the reset is delegated to a helper: self._reset(buf) / self._reset() zeroing self.<attr>
+    tr = getattr(fold, "__self__", None)
+    call = st.value if isinstance(st, ast.Expr) and isinstance(st.value, ast.Call) else None
+    if call is not None and isinstance(tr, Tracer) and tr.find_method is not None and getattr(tr, "depth", 0) < 2:
+        f = call.func
+        nm = f.attr if isinstance(f, ast.Attribute) and isinstance(f.value, ast.Name) and f.value.id in ("self", "cls") \
+            else (f.id if isinstance(f, ast.Name) else None)
+        hd = tr.find_method(nm) if nm else None
+        if hd is not None and hd is not tr.func:
+            pn = [a.arg for a in hd.args.args]
+            if pn and pn[0] in ("self", "cls"):
+                pn = pn[1:]
+            inner = set()
+            for i, a in enumerate(call.args):
+                if i < len(pn) and isinstance(a, ast.Name) and a.id in names:
+                    inner.add(pn[i])
+            for kw in call.keywords:
+                if kw.arg and isinstance(kw.value, ast.Name) and kw.value.id in names:
+                    inner.add(kw.arg)
+            attrs = {ast.unparse(tr.env[n]) for n in names if n in tr.env and isinstance(tr.env[n], ast.Attribute)}
+            for x in hd.body:
+                if inner and is_zeroing(x, inner, None):
+                    return True
+                if isinstance(x, ast.Assign) and len(x.targets) == 1 and isinstance(x.targets[0], ast.Subscript) \
+                        and ast.unparse(x.targets[0].value) in attrs and _is_zero_const(x.value):
+                    return True
+                if isinstance(x, ast.Expr) and isinstance(x.value, ast.Call) and isinstance(x.value.func, ast.Attribute) \
+                        and x.value.func.attr == "fill" and ast.unparse(x.value.func.value) in attrs \
+                        and x.value.args and _is_zero_const(x.value.args[0]):
+                    return True
     return False
 
 
